@@ -19,6 +19,14 @@ def _name(x):
     return str(getattr(x, "name", x)).strip().lower()
 
 
+def docwords(obj):
+    """Word sequence of the raw documentation attached to an entity."""
+    words = []
+    for line in getattr(obj, "doc_list", None) or []:
+        words.extend(str(line).split())
+    return words
+
+
 def var(v, in_common=False):
     """FortranVariable -> canonical record (same keys as model.canon_var)."""
     import ford.sourceform as sf
@@ -53,7 +61,7 @@ def var(v, in_common=False):
         "kind": squash(v.kind) if v.kind else None, "strlen": squash(v.strlen) if v.strlen else None,
         "proto": proto, "attrs": sorted(attrs), "dim": dim, "intent": (v.intent or "").lower(),
         "initial": squash(initial) if initial not in (None, "") else None, "points": bool(v.points),
-        "permission": (v.permission or "").lower(),
+        "permission": (v.permission or "").lower(), "doc": docwords(v),
     }
 
 
@@ -83,10 +91,18 @@ def proc(p, expected_perm=None):
         "prefix": sorted(a.lower() for a in p.attribs),
         "bind": squash(p.bindC) if getattr(p, "bindC", None) else None,
         "retvar": retvar(p.retvar) if hasattr(p, "retvar") and p.retvar is not None else None,
-        "permission": (p.permission or "").lower(),
+        "permission": (p.permission or "").lower(), "doc": docwords(p), "calls": calls_of(p),
     }
     d.update(scope(p))
     return d
+
+
+def calls_of(u):
+    from vfw.refsem import ford_ident
+    out = []
+    for c in getattr(u, "calls", []) or []:
+        out.append("unresolved:" + c.lower() if isinstance(c, str) else (ford_ident(c) or "?"))
+    return sorted(out)
 
 
 def ftype(t):
@@ -107,7 +123,7 @@ def ftype(t):
             "targets": sorted(_name(x) for x in b.bindings) if b.generic else [_name(x) for x in b.bindings],
             "iface": _name(b.proto) if b.proto else None,
             "attrs": sorted(squash(a) for a in b.attribs),
-            "permission": (b.permission or "").lower(),
+            "permission": (b.permission or "").lower(), "doc": docwords(b),
         })
     attrs = sorted(squash(a) for a in t.attribs)
     return {
@@ -116,7 +132,7 @@ def ftype(t):
         "components": sorted(comps, key=lambda v: v["name"]),
         "binds": sorted(binds, key=lambda b: b["name"]),
         "finals": sorted(_name(f.name) for f in t.finalprocs),
-        "permission": (t.permission or "").lower(),
+        "permission": (t.permission or "").lower(), "doc": docwords(t),
     }
 
 
@@ -141,7 +157,7 @@ def scope(u):
                 vs.append(var(v))
             elif isinstance(v, sf.FortranVariable) and v.parent is c:
                 vs.append(dict(var(v), kind_="implicit-in-common"))
-        commons.append({"name": _name(c.name) or "", "vars": names})
+        commons.append({"name": _name(c.name) or "", "vars": names, "doc": docwords(c)})
     d["variables"] = sorted(vs, key=lambda v: v["name"])
     d["types"] = sorted((ftype(t) for t in getattr(u, "types", [])), key=lambda t: t["name"])
     generics, ifprocs = [], []
@@ -156,7 +172,7 @@ def scope(u):
                 "modprocs": sorted(_name(m.name) for m in i.modprocs) +
                             sorted(_name(v.name) for v in getattr(i, "variables", [])),
                 "bodies": sorted((proc(b) for b in list(i.functions) + list(i.subroutines)), key=lambda p: p["name"]),
-                "permission": (i.permission or "").lower(),
+                "permission": (i.permission or "").lower(), "doc": docwords(i),
             })
             generics[-1]["modprocs"].sort()
     d["interfaces"] = sorted(generics, key=lambda x: x["name"])
@@ -173,7 +189,7 @@ def scope(u):
                       for v in e.variables])
     d["enums"] = sorted(enums, key=lambda e: e[0]["name"] if e else "")
     d["commons"] = sorted(commons, key=lambda c: (c["name"], c["vars"]))
-    d["namelists"] = sorted(({"name": _name(n.name), "vars": [_name(v) for v in n.variables]}
+    d["namelists"] = sorted(({"name": _name(n.name), "vars": [_name(v) for v in n.variables], "doc": docwords(n)}
                              for n in getattr(u, "namelists", [])), key=lambda n: n["name"])
     procs = []
     modprocs = []
@@ -199,15 +215,15 @@ def unit(u):
         return proc(u)
     if isinstance(u, sf.FortranSubmodule):
         d = {"kind_": "submodule", "name": _name(u.name), "ancestor": _name(u.ancestor_module),
-             "parent": _name(u.parent_submodule) if u.parent_submodule else None}
+             "parent": _name(u.parent_submodule) if u.parent_submodule else None, "doc": docwords(u)}
         d.update(scope(u))
         return d
     if isinstance(u, sf.FortranModule):
-        d = {"kind_": "module", "name": _name(u.name)}
+        d = {"kind_": "module", "name": _name(u.name), "doc": docwords(u)}
         d.update(scope(u))
         return d
     if isinstance(u, sf.FortranProgram):
-        d = {"kind_": "program", "name": _name(u.name)}
+        d = {"kind_": "program", "name": _name(u.name), "doc": docwords(u), "calls": calls_of(u)}
         d.update(scope(u))
         return d
     if isinstance(u, sf.FortranBlockData):
@@ -216,7 +232,7 @@ def unit(u):
             nm = ""
         sc = scope(u)
         return {"kind_": "blockdata", "name": nm, "variables": sc["variables"], "types": sc["types"],
-                "commons": sc["commons"], "uses": sc["uses"]}
+                "commons": sc["commons"], "uses": sc["uses"], "doc": docwords(u)}
     return {"kind_": "unknown", "name": _name(u)}
 
 
